@@ -501,3 +501,87 @@ Theorem migrate_wrong_allocator_refuted :
               (mkR (fun l => if Z.eqb (snd l) 0 && (Z.eqb (fst l) 0 || Z.eqb (fst l) 1) then Live 5 else Raw)
                    [(1, (1, 16)); (0, (1, 16))] [] 2 [])) = true.
 Proof. vm_compute. reflexivity. Qed.
+
+(* ================================================================== (c') contiguous migration (stdish::vector) *)
+Section BlockMigrationProofs.
+Variables mgrA mgrB isz : Z.
+
+Lemma move_all_post2 sb tb : forall n i s f g nb,
+  st2 s f g nb -> (forall k, 0 <= k < Z.of_nat n -> f (sb, i + k) = true /\ f (tb, i + k) = false) -> sb <> tb ->
+  post (move_all sb tb i n) s (fun _ s' => st2 s' (fun l => inrng tb i n l || f l) g nb) (fun _ => False).
+Proof.
+  induction n as [|n IH]; intros i s f g nb H Hr Hne; simpl.
+  - apply post_ret. eapply st2_ext; [| |exact H]; [intros l; rewrite inrng_0; reflexivity|intros; reflexivity].
+  - destruct (Hr 0) as [Hs0 Hd0]; [lia|]. rewrite Z.add_0_r in Hs0, Hd0. apply post_bind.
+    eapply post_conseq; [apply (p_move_nt_post2 (tb, i) (sb, i) s f g nb H Hs0 Hd0)| |auto].
+    intros u1 s1 H1.
+    eapply post_conseq; [apply (IH (i + 1) s1 _ g nb H1)| |auto].
+    + intros k Hk. destruct (Hr (1 + k)) as [Hs Hd]; [lia|].
+      replace (i + 1 + k) with (i + (1 + k)) by lia. cbv beta. rewrite Hs, Hd. rewrite orb_true_r. split; [reflexivity|].
+      destruct (loc_eqb_spec (tb, i + (1 + k)) (tb, i)) as [E|]; [exfalso; assert (i + (1 + k) = i) by congruence; lia|reflexivity].
+    + exact Hne.
+    + intros u2 s2 H2. eapply st2_ext; [|intros; reflexivity|exact H2]. intros l. cbv beta. rewrite inrng_S.
+      destruct (loc_eqb l (tb, i)), (inrng tb (i + 1) n l), (f l); reflexivity.
+Qed.
+
+(* vector migration between unequal allocators followed by both destructors, every schedule: the target's storage comes from and
+   goes back through B, the source's through A, every element (source and target) is destroyed exactly once *)
+Theorem migrate_block_then_destroy_post sb n s f g nb :
+  st2 s f g nb -> g sb = Some (mgrA, Z.of_nat n * isz) -> sb < nb -> g nb = None ->
+  (forall k, 0 <= k < Z.of_nat n -> f (sb, 0 + k) = true) -> (forall l, fst l = nb -> f l = false) ->
+  post (migrate_block_then_destroy mgrA mgrB isz sb n) s
+       (fun _ s' => exists nb', st2 s' (fun l => negb (inrng sb 0 n l) && f l) (fun x => if Z.eqb sb x then None else g x) nb')
+       (fun s' => exists nb', st2 s' (fun l => negb (inrng sb 0 n l) && f l) (fun x => if Z.eqb sb x then None else g x) nb').
+Proof.
+  intros H Hg Hlt Hgn Hsrc Hcl. unfold migrate_block_then_destroy, migrate_block, post.
+  assert (DropSrc : forall s1 nb1 (g1 : bview), st2 s1 f g1 nb1 -> g1 sb = Some (mgrA, Z.of_nat n * isz) ->
+            post (om_destroy_n sb 0 n ;;; p_dealloc mgrA sb (Z.of_nat n * isz)) s1
+                 (fun _ s' => st2 s' (fun l => negb (inrng sb 0 n l) && f l) (fun x => if Z.eqb sb x then None else g1 x) nb1) (fun _ => False)).
+  { intros s1 nb1 g1 H1 Hg1. apply post_bind.
+    eapply post_conseq; [apply (om_destroy_n_post2 sb n 0 s1 f g1 nb1 H1 Hsrc)| |auto].
+    intros u s2 H2. apply (p_dealloc_post2 mgrA sb (Z.of_nat n * isz) s2 _ g1 nb1 H2 Hg1). }
+  pose proof (p_alloc_post2 mgrB (Z.of_nat n * isz) s f g nb H) as A.
+  unfold bind at 1. unfold post in A.
+  destruct (p_alloc mgrB (Z.of_nat n * isz) s) as [[tb| |] s1]; [| |contradiction].
+  2:{ pose proof (DropSrc s1 nb g A Hg) as P. unfold post in P.
+      destruct ((om_destroy_n sb 0 n;;; p_dealloc mgrA sb (Z.of_nat n * isz)) s1) as [[u| |] s2]; try contradiction. exists nb. exact P. }
+  destruct A as [Et H1]. subst tb.
+  set (g1 := fun x => if Z.eqb nb x then Some (mgrB, Z.of_nat n * isz) else g x) in *.
+  assert (Hne : sb <> nb) by lia.
+  assert (M1 : post (move_all sb nb 0 n ;;; om_destroy_n sb 0 n ;;; ret nb) s1
+                 (fun tb s' => tb = nb /\ st2 s' (fun l => negb (inrng sb 0 n l) && (inrng nb 0 n l || f l)) g1 (nb + 1)) (fun _ => False)).
+  { apply post_bind.
+    eapply post_conseq; [apply (move_all_post2 sb nb n 0 s1 f g1 (nb + 1) H1)| |auto].
+    - intros k Hk. split; [apply Hsrc; exact Hk|apply Hcl; reflexivity].
+    - exact Hne.
+    - intros u1 s2 H2. apply post_bind.
+      eapply post_conseq; [apply (om_destroy_n_post2 sb n 0 s2 _ g1 (nb + 1) H2)| |auto].
+      + intros k Hk. cbv beta. rewrite (Hsrc k Hk). apply orb_true_r.
+      + intros u2 s3 H3. apply post_ret. split; [reflexivity|exact H3]. }
+  unfold post in M1.
+  destruct ((move_all sb nb 0 n;;; om_destroy_n sb 0 n;;; ret nb) s1) as [[tb| |] s2]; try contradiction.
+  destruct M1 as [Et H2]. subst tb.
+  assert (Q : post (om_destroy_n nb 0 n ;;; p_dealloc mgrB nb (Z.of_nat n * isz) ;;; p_dealloc mgrA sb (Z.of_nat n * isz)) s2
+                (fun _ s' => st2 s' (fun l => negb (inrng sb 0 n l) && f l) (fun x => if Z.eqb sb x then None else g x) (nb + 1)) (fun _ => False)).
+  { apply post_bind.
+    eapply post_conseq; [apply (om_destroy_n_post2 nb n 0 s2 _ g1 (nb + 1) H2)| |auto].
+    - intros k Hk. cbv beta. rewrite (inrng_other_region sb 0 n (nb, 0 + k)) by (simpl; lia).
+      rewrite (inrng_in nb 0 n k Hk). reflexivity.
+    - intros u1 s3 H3. apply post_bind.
+      eapply post_conseq; [apply (p_dealloc_post2 mgrB nb (Z.of_nat n * isz) s3 _ g1 (nb + 1) H3)| |auto].
+      + unfold g1. rewrite Z.eqb_refl. reflexivity.
+      + intros u2 s4 H4.
+        eapply post_conseq; [apply (p_dealloc_post2 mgrA sb (Z.of_nat n * isz) s4 _ _ (nb + 1) H4)| |auto].
+        * cbv beta. unfold g1. destruct (Z.eqb_spec nb sb); [lia|]. exact Hg.
+        * intros u3 s5 H5. eapply st2_ext; [| |exact H5].
+          -- intros l. cbv beta. destruct (inrng_spec nb 0 n l) as [[E _]|]; simpl.
+             ++ rewrite (Hcl l E). destruct (inrng sb 0 n l); reflexivity.
+             ++ reflexivity.
+          -- intros x. cbv beta. unfold g1. destruct (Z.eqb_spec sb x) as [E|E]; [reflexivity|].
+             destruct (Z.eqb_spec nb x) as [E2|E2]; [subst x; symmetry; exact Hgn|reflexivity]. }
+  unfold post in Q.
+  destruct ((om_destroy_n nb 0 n;;; p_dealloc mgrB nb (Z.of_nat n * isz);;; p_dealloc mgrA sb (Z.of_nat n * isz)) s2) as [[u| |] s3];
+    try contradiction. exists (nb + 1). exact Q.
+Qed.
+
+End BlockMigrationProofs.
